@@ -7,7 +7,7 @@ LOGS=${LOGS:-/tmp/benign_logs}; mkdir -p "$LOGS"
 PROPS=$(python3 -c "import json;print(' '.join(c['property_id'] for c in json.load(open('/verif/MANIFEST.json'))['checks']))")
 one() {
   d=$1; id=$(basename $d); S=$(mktemp -d ${TMPDIR:-/tmp}/bn.XXXXXX)
-  cp -a /repo/. $S/ && git -C $S checkout -q -- . && git -C $S apply $d/patch.diff 2>/dev/null || { echo "$id APPLY-FAILED"; rm -rf $S; return; }
+  cp -a ${BASE:-/repo}/. $S/ && git -C $S checkout -q -- . && git -C $S apply $d/patch.diff 2>/dev/null || { echo "$id APPLY-FAILED"; rm -rf $S; return; }
   A=""; : > $LOGS/$id.log
   for p in $PROPS; do
     R=$(VERIF_REPO=$S /verif/bin/vcheck -prop $p -out $S/.ev 2>&1); rc=$?
